@@ -430,6 +430,13 @@ func ZZ_C07_assignment_targets() {
 	e.Define("m", map[interface{}]interface{}{"k": int64(1)})
 	e.Define("mm", map[interface{}]interface{}{int64(0): map[interface{}]interface{}{}})
 	e.Define("mnest", map[interface{}]interface{}{int64(0): []interface{}{int64(5)}})
+	e.Define("ilst", []int64{0, 1, 2})
+	e.Define("inest", [][]int64{{5, 6}, {7}})
+	e.Define("recs", []*zzRec{{A: 1}, {A: 2}})
+	e.Define("gset", func(p *int64) { *p = 42 })
+	e.Define("gset2", func(p *int64, v int64) { *p = v })
+	e.Define("gseti", func(p *interface{}) { *p = int64(42) })
+	e.Define("pk", func(tag int64) string { zz.Probe(int(tag)); return "k" })
 	e.Define("i0", func(tag int64) int64 { zz.Probe(int(tag)); return 0 })
 	e.Define("i1", func(tag int64) int64 { zz.Probe(int(tag)); return 1 })
 	forms := []struct{ name, src string }{
@@ -443,6 +450,12 @@ func ZZ_C07_assignment_targets() {
 		{"two-targets", "lst[i0(1)], lst[i1(2)] = p(8), p(9)"},
 		{"member-of-element", "mm[i0(1)].x = p(9)"},
 		{"let-map-item", "v, ok = m[p(1)]"},
+		// operands inside an `&` argument of a Go function (the call writes pointees back to variables)
+		{"addr-of-element-argument", "gset(&ilst[i1(1)])"},
+		{"addr-of-nested-element-argument", "gset(&inest[i0(1)][i1(2)])"},
+		{"addr-of-map-entry-argument", "gseti(&m[pk(1)])"},
+		{"addr-of-variable-argument", "n = 1; gset(&n); gset2(&n, p(9))"},
+		{"addr-of-member-of-element-argument", "gset(&recs[i1(1)].A)"},
 	}
 	f := forms[zz.Choose(len(forms))]
 	zz.ResetTrace()
